@@ -192,8 +192,11 @@ package blob
 //@   property C11
 //@   noframe
 //@   requires s != nil && sharesParser != nil
+//@   ensures err == nil ==> result0 != nil && result1 != nil
+//@   ensures err != nil ==> result0 == nil && result1 == nil
 //@   param .headerGetter: ensures $result1 == nil ==> $result0 != nil && $result0.DAH != nil
 //@   callpre parser).set: $arg1 == rowIndex*len(header.DAH.RowRoots) + index && $arg2 == appShares
 //@   loop 3: invariant 0 <= index - deref(row.Proof).start && index - deref(row.Proof).start <= len(row.Shares)
 //@   loop 3: invariant len(appShares) == len(row.Shares) - (index - deref(row.Proof).start)
 //@   loop 3: invariant len(appShares) > 0 ==> appShares == row.Shares[index - deref(row.Proof).start:]
+//@   loop 4: invariant err != nil
